@@ -717,10 +717,11 @@ class Interp:
                 fname = ("dyn", t)
         else:
             fname = ("dyn", self.expr(f))
-        if self.track_alloc:
+        term = self.fold_call(fname, args, kwargs)
+        if self.track_alloc and term[0] == "call" and term[1:] == (fname, args, kwargs) and fname != "builtins.range":
             # every evaluated call expression denotes a distinct run-time object
             kwargs = kwargs + (("@", C(next(self._uid))),)
-        term = self.fold_call(fname, args, kwargs)
+            term = ("call", fname, args, kwargs)
         self.emit("call", n, call=("call", fname, args, kwargs), result=term)
         # container mutators on a plain local list, straight-line code
         if isinstance(f, ast.Attribute) and isinstance(f.value, ast.Name) and f.attr == "append" and len(args) == 2:
